@@ -53,6 +53,7 @@ type FuncContract struct {
 	Loops          map[int]*LoopContract
 	Trusted        bool // do not verify body; contract assumed (reported)
 	Pure           bool // no heap effect; result is a function of args and read heaps
+	ValuePure      bool // pure and independent of the heap
 	NoPanic        bool // obligation: panics unreachable (default true)
 	MayPanic       bool
 	CheckAsserts   bool
@@ -347,6 +348,9 @@ func (cs *ContractSet) LoadContractFile(path, pkgPath string) error {
 			cur.Trusted = true
 		case "pure":
 			cur.Pure = true
+		case "vpure":
+			cur.Pure = true
+			cur.ValuePure = true
 		case "maypanic":
 			cur.MayPanic = true
 		case "checkasserts":
